@@ -13,7 +13,7 @@ Become(S) == /\ stack' = S.stack /\ origin' = S.origin /\ lastOwner' = S.lastOwn
              /\ lastTtl' = S.lastTtl /\ soaMin' = S.soaMin /\ out' = S.out /\ status' = S.status
              /\ errAt' = S.errAt /\ file' = S.file /\ ln' = S.ln /\ n' = S.n
              /\ UNCHANGED <<pol, cfg>>
-InitWith(c, p) == cfg = c /\ pol = p /\ LET S == Start(c) IN
+InitWith(c, p) == cfg = c /\ pol = p /\ LET S == Start(c, p) IN
     /\ stack = S.stack /\ origin = S.origin /\ lastOwner = S.lastOwner /\ defTtl = S.defTtl
     /\ lastTtl = S.lastTtl /\ soaMin = S.soaMin /\ out = S.out /\ status = S.status
     /\ errAt = S.errAt /\ file = S.file /\ ln = S.ln /\ n = S.n
